@@ -509,13 +509,11 @@ def make_machine(ctx, kind):
         def __init__(self):
             super(Machine, self).__init__()
             self.case = {"part": "history", "kind": kind, "ops": []}
-            self.skip = ctx.out_of_time()
-            if not self.skip:
-                ctx.case(self.case)
+            ctx.case(self.case)
             self.w = World(ctx, kind)
 
         def step(self, op):
-            if self.skip or self.w.dead:
+            if self.w.dead:
                 return
             self.case["ops"].append(op)
             self.w.apply(op)
@@ -546,14 +544,14 @@ def make_machine(ctx, kind):
             self.step({"op": "fresh", "c": c})
 
         # state-aware rules (the op that is logged is concrete, so a replay needs no model state)
-        @precondition(lambda self: not self.skip and self.w.fully_registered())
+        @precondition(lambda self: self.w.fully_registered())
         @rule(i=idx)
         def unregister_registered(self, i):
             reg = self.w.fully_registered()
             r, ann = reg[i % len(reg)]
             self.step({"op": "unregister", "r": r, "ann": ann})
 
-        @precondition(lambda self: not self.skip and self.w.unregistered_rids)
+        @precondition(lambda self: self.w.unregistered_rids)
         @rule(i=idx, other=st.booleans())
         def reregister(self, i, other):
             rids = self.w.unregistered_rids
@@ -563,31 +561,45 @@ def make_machine(ctx, kind):
                 ann = "str" if ann == "cls" else "cls"
             self.step({"op": "register", "r": r, "ann": ann})
 
-        @precondition(lambda self: not self.skip and self.w.handled_classes())
+        @precondition(lambda self: self.w.handled_classes())
         @rule(i=idx, v=vals, seq=seqs, client=clients)
         def dispatch_handled(self, i, v, seq, client):
             cs = self.w.handled_classes()
             self.step({"op": "dispatch", "c": cs[i % len(cs)], "v": v, "seq": seq, "client": client})
 
-        @precondition(lambda self: not self.skip and self.w.unreg_classes)
+        @precondition(lambda self: self.w.unreg_classes)
         @rule(i=idx, v=vals, seq=seqs, client=clients)
         def dispatch_unregistered(self, i, v, seq, client):
             cs = sorted(self.w.unreg_classes)
             self.step({"op": "dispatch", "c": cs[i % len(cs)], "v": v, "seq": seq, "client": client})
 
         def teardown(self):
-            if not self.skip:
-                self.w.finish(self.case)
+            self.w.finish(self.case)
 
     Machine.__name__ = "C20%sMachine" % kind.capitalize()
     return Machine
 
 
+SM_CHUNK = 250
+
+
 def run_sm(spec, ctx):
+    """n machines in independently seeded chunks.  The wall-clock budget is only looked at BETWEEN chunks: inside a
+    Hypothesis run nothing may depend on the clock (rule preconditions would turn flaky)"""
     kind = spec["kind"]
-    machine = make_machine(ctx, kind)
-    seeded = hypothesis.seed(ctx.hseed("sm", kind, spec.get("i", 0)))(machine)
-    run_state_machine_as_test(seeded, settings=ctx.settings(spec["n"], stateful_step_count=40))
+    done = 0
+    chunk = 0
+    while done < spec["n"]:
+        if ctx.out_of_time():
+            ctx.inconclusive += 1
+            ctx.label("sm-cut-short")
+            break
+        k = min(SM_CHUNK, spec["n"] - done)
+        machine = make_machine(ctx, kind)
+        seeded = hypothesis.seed(ctx.hseed("sm", kind, spec.get("i", 0), chunk))(machine)
+        run_state_machine_as_test(seeded, settings=ctx.settings(k, stateful_step_count=40))
+        done += k
+        chunk += 1
 
 
 # ------------------------------------------------------------------------------- part enum
